@@ -17,7 +17,7 @@ ASSUMPTIONS = ["aliasing / independence of the two Rust values is the borrow che
 
 def one(cat, rng, stack):
     b = RB(ID, cat, rng, stack)
-    b.idx_cmp = "idx"
+    b.idx_cmp = "status"   # index values are opaque here: equality is checked between the two real regions
     b.new("s")
     last = prehistory(b, "s", 1 + rng.below(8))
     use_from = rng.below(2) == 0
@@ -60,7 +60,7 @@ def coded_one(cat, rng):
     """coded (Huffman) compositions in their *encoded* state: both sides of clone_from are merged regions with
     different histories; every value comes from a pool covered by the statistics"""
     b = RB(ID, cat, rng)
-    b.idx_cmp = "idx"
+    b.idx_cmp = "status"   # index values are opaque here: equality is checked between the two real regions
     pool = [b.value() for _ in range(2 + rng.below(4))]
     b.new("r")
     for v in pool:
